@@ -329,6 +329,30 @@ func signedCustom(k keyInfo, entries func(ma datamodel.MapAssembler)) []byte {
 	return raw
 }
 
+// deleteField re-emits a protobuf message without any occurrence of field number k (wire level: no
+// value is changed, the field is simply absent afterwards).
+func deleteField(raw []byte, k protowire.Number) ([]byte, bool) {
+	var out []byte
+	found := false
+	for len(raw) > 0 {
+		num, typ, n := protowire.ConsumeTag(raw)
+		if n < 0 {
+			return nil, false
+		}
+		m := protowire.ConsumeFieldValue(num, typ, raw[n:])
+		if m < 0 {
+			return nil, false
+		}
+		if num == k {
+			found = true
+		} else {
+			out = append(out, raw[:n+m]...)
+		}
+		raw = raw[n+m:]
+	}
+	return out, found
+}
+
 func flip(r *vh.Rand, b []byte) []byte {
 	c := append([]byte(nil), b...)
 	if len(c) == 0 {
@@ -363,7 +387,7 @@ func mutate(r *vh.Rand, b base, now time.Time) (raw, rk []byte, mut, expect stri
 		}
 		return marshal(pb), rk, "legacy-v2only-" + name, "fail"
 	}
-	switch k := r.Intn(40); k {
+	switch k := r.Intn(46); k {
 	case 0, 1, 2, 3, 4:
 		return b.raw, rk, "none", okExpect
 	case 5:
@@ -397,6 +421,36 @@ func mutate(r *vh.Rand, b base, now time.Time) (raw, rk []byte, mut, expect stri
 	case 11:
 		pb.SignatureV1 = flip(r, pb.SignatureV1)
 		return marshal(pb), rk, "sigv1-changed", "any"
+	case 40, 41, 42, 43, 44, 45:
+		// one protobuf field deleted at the wire level (fields 1..9). For a legacy reader an absent field
+		// is the zero value: the record must be rejected when that disagrees with the signed data.
+		fn := protowire.Number(1 + r.Intn(9))
+		out, found := deleteField(b.raw, fn)
+		if !found {
+			return b.raw, rk, "none", okExpect
+		}
+		exp := "any"
+		nd, _ := decodeCBOR(pb.Data)
+		sseq, _ := lookupInt(nd, "Sequence")
+		sttl, _ := lookupInt(nd, "TTL")
+		stillLegacy := (fn != 1 && len(pb.Value) != 0) || (fn != 2 && len(pb.SignatureV1) != 0)
+		switch fn {
+		case 1, 4:
+			if stillLegacy {
+				exp = "fail"
+			}
+		case 5:
+			if stillLegacy && sseq != 0 {
+				exp = "fail"
+			}
+		case 6:
+			if stillLegacy && sttl != 0 {
+				exp = "fail"
+			}
+		case 8, 9:
+			exp = "fail"
+		}
+		return out, rk, fmt.Sprintf("delete-field-%d", fn), exp
 	case 12:
 		pb.Data = flip(r, pb.Data)
 		return marshal(pb), rk, "data-flip", "fail"
@@ -810,27 +864,30 @@ func exec(c vh.Case, o *vh.Out) {
 				}
 				// legacy fields that are present must agree with the signed data
 				dis := ""
-				if pb.Sequence != nil {
+				legacyOn := len(pb.GetValue()) != 0 || len(pb.GetSignatureV1()) != 0
+				// with Value or SignatureV1 present the record is a V1+V2 record: a legacy reader takes an
+				// absent optional field as its zero value, which must then equal the signed value too
+				if legacyOn || pb.Sequence != nil {
 					if i, ok := lookupInt(nd, "Sequence"); !ok || pb.GetSequence() != uint64(i) {
 						dis = "sequence"
 					}
 				}
-				if pb.Ttl != nil {
+				if legacyOn || pb.Ttl != nil {
 					if i, ok := lookupInt(nd, "TTL"); !ok || pb.GetTtl() != uint64(i) {
 						dis = "ttl"
 					}
 				}
-				if pb.Validity != nil {
+				if legacyOn || pb.Validity != nil {
 					if b, ok := lookupBytes(nd, "Validity"); !ok || !bytes.Equal(b, pb.GetValidity()) {
 						dis = "validity"
 					}
 				}
-				if pb.ValidityType != nil {
+				if legacyOn || pb.ValidityType != nil {
 					if i, ok := lookupInt(nd, "ValidityType"); !ok || int64(pb.GetValidityType()) != i {
 						dis = "validitytype"
 					}
 				}
-				if pb.Value != nil {
+				if legacyOn || pb.Value != nil {
 					if b, ok := lookupBytes(nd, "Value"); !ok || !bytes.Equal(b, pb.GetValue()) {
 						dis = "value"
 					}
